@@ -44,6 +44,7 @@ def run(ctx, tier):
                  ("R3", "expansion divisor coupled to the percent-escape length"),
                  ("R4", "input parsed against a base only if the base is valid"),
                  ("R7", "a size-checked parse against a base uses a base built by the storing parser"),
+                 ("R8", "the fast validator defers every authority containing tab / LF / CR, in the host part and in the port part"),
                  ("R5", "fast validator's accepted host bytes"),
                  ("R6", "fast validator defers every possibly-IPv4 host (case-insensitively)")):
         ctx.rule(r, t)
@@ -299,6 +300,19 @@ def check(ctx, fx):
     T.subset("fast-validator.authority", acc, allowed, ctx, "R5",
              "is a forbidden domain code point, '%', '@' or non-ASCII: the full parser would reject or transform it",
              where_=v["loc"])
+    # R8: the parser removes tab / LF / CR from the whole input before it looks at it; the validator does not, so it must hand
+    # every input containing one of them in the authority — host part or port part — to the parser
+    for phase, pin in (("host part", False), ("port part", True)):
+        bl.assume = {p_: pin for p_ in pins}
+        o2 = bl.classify(bid, idx, var)
+        for byte in (9, 10, 13):
+            outs = o2.get(byte, ())
+            defer_only = bool(outs) and all(o[0] == "return" and "nullopt" in str(o[1]) for o in outs)
+            ctx.check("R8", "fast-validator.authority %s: byte 0x%02X is handed to the full parser" % (phase, byte), defer_only,
+                      "return std::nullopt", "in the %s of the authority the byte 0x%02X (tab/LF/CR, which the parser strips from the "
+                      "input) is %s instead of deferring to the parser: can_parse and parse then look at different strings "
+                      "(e.g. http://host:8\\t0/)" % (phase, byte, sorted(set(str(o[:2]) for o in outs))), where=v["loc"].replace("/repo/", ""))
+    bl.assume = {p_: False for p_ in pins}
     # R6: deferral set on the last non-dot byte
     lnd = None
     lc = None
